@@ -867,6 +867,22 @@ def replay(ctx, path):
 
 
 # ---------------------------------------------------------------------------- run
+def model_ask_par(reqs, nproc=4):
+    """vlib.model_ask on up to 4 model processes (the extracted model computes with Coq's binary integers:
+    about 8 ms per case)"""
+    if len(reqs) < 400:
+        return vlib.model_ask("Num", reqs)
+    from concurrent.futures import ThreadPoolExecutor
+    vlib.build_model("Num")
+    chunks = [reqs[i::nproc] for i in range(nproc)]
+    with ThreadPoolExecutor(nproc) as ex:
+        parts = list(ex.map(lambda ch: vlib.model_ask("Num", ch), chunks))
+    out = [None] * len(reqs)
+    for i, part in enumerate(parts):
+        out[i::nproc] = part
+    return out
+
+
 def aux_checks(ctx, cases, dist):
     """float(), the reader, isclose, round, _value_changed: the model's building blocks against the real ones"""
     from montepy.utilities import fortran_float
@@ -927,7 +943,7 @@ def aux_checks(ctx, cases, dist):
                 continue
         reqs.append("changed %s %s %s" % (c["kind"], enc_tok(c["tok"]), enc_val(c)))
         exps.append(("changed", e))
-    answers = vlib.model_ask("Num", reqs)
+    answers = model_ask_par(reqs)
     bad = []
     counts = {}
     for q, a, (k, e) in zip(reqs, answers, exps):
@@ -960,8 +976,8 @@ def aux_checks(ctx, cases, dist):
 
 def run(ctx):
     import montepy          # before any warnings.catch_warnings block: importing it installs warning filters
-    n_cases = 3000 if ctx.tier == "quick" else 150000
-    n_carriers = 60 if ctx.tier == "quick" else 3000
+    n_cases = 6000 if ctx.tier == "quick" else 150000
+    n_carriers = 150 if ctx.tier == "quick" else 4000
     ctx.prove()
     ok, log = vlib.coq_make(["Model/Num.vo"])
     if not ok:
@@ -986,7 +1002,7 @@ def run(ctx):
     for i in range(n_cases):
         cases.append(gen_case(random.Random(f"{ctx.seed}:C05:{i}")))
     reqs = [request_of(c) for c in cases]
-    answers = vlib.model_ask("Num", reqs)
+    answers = model_ask_par(reqs)
     nx, bad = vlib.vm_crosscheck("Num", reqs, answers, sample=40 if ctx.tier == "quick" else 400, seed=ctx.seed)
     if bad:
         ctx.broken_obligations.append({"obligation": "extraction cross-check Num", "detail": bad[:2]})
